@@ -35,7 +35,7 @@ PROPS = {
         "level": "proof",
         "trusted_base": ["C01 contract forward(m) == m.G (received words are built as m.G xor e from the published G)", "advertised capability t = floor((d-1)/2) read as in C03"],
         "assumptions": [],
-        "out_of_reach": ["BerlekampMasseyDecoder: converts every received bit with int(round(.item())) (full concretisation) and its correctness is the Berlekamp-Massey/Chien theorem: bounded stand-in only (exhaustive over all codewords x all patterns of weight <= t where that product is small, seeded sample otherwise); its field operations are under contract in C18", "ReedMullerDecoder (majority logic): .item()-driven loops over partitions: bounded stand-in only"],
+        "out_of_reach": ["BerlekampMasseyDecoder beyond the path budget (n >= 15 in the quick tier): it converts every received bit with int(round(.item())), so symbolic execution degenerates into one path per (codeword, pattern) pair - done path-completely for n = 7 (C02.berlekamp_massey_paths), bounded stand-in (exhaustive where small, seeded sample otherwise) for larger codes; its field operations are under contract in C18", "ReedMullerDecoder (majority logic): .item()-driven loops over partitions: bounded stand-in only"],
     },
     "C12": {
         "level": "proof",
